@@ -257,6 +257,12 @@ Theorem C17_loader_keeps_no_state : forall fn x w, In (fn, x, w) gen_loader_stat
 Proof. exact (loader_stateless_spec gen_loader_state (proj1 gen_loader_stateless)). Qed.
 Print Assumptions C17_loader_keeps_no_state.
 
+(* the Where() expression is kept as ONE compiled filter (goRule.filter) and consulted by the match handlers only, its operands by
+   the combinator closures only: no operand is pulled out in front of the pattern match to decide for a whole file or node *)
+Theorem C17_filter_kept_once_consulted_per_match : forall fn x, In (fn, x) gen_filter_consults -> In (fn, x) doc_filter_consults.
+Proof. exact (filter_consults_spec gen_filter_consults gen_filter_consults_ok). Qed.
+Print Assumptions C17_filter_kept_once_consulted_per_match.
+
 (* ---------------------------------------------------------------- a comparison is a function of the match alone *)
 (* every place where the per-match code writes storage that outlives the call is one of the audited three (the capture name a
    custom filter is asked about, the capture preset of a sub-search, a local of a load-time helper): nothing remembers a value
